@@ -19,6 +19,7 @@ warnings.simplefilter("ignore")
 from traits.api import (  # noqa: E402
     Any, Dict, HasTraits, Instance, Int, Interface, List, Property, Set, Supports, TraitError, TraitType, Tuple,
     cached_property, provides, push_exception_handler, register_factory)
+from traits.observation.api import match  # noqa: E402
 
 push_exception_handler(handler=lambda *a: None, reraise_exceptions=False, main=True)
 
@@ -142,6 +143,15 @@ class A(HasTraits):
     ad2 = Instance(IProto, adapt="default")
     _log = Any()
 
+    dp = Property(Int, depends_on="x")      # legacy cached property: outside the model, read into the aux digest
+
+    @cached_property
+    def _get_dp(self):
+        if PLAN["kind"] == "handler" and PLAN["k"] == 7:
+            PLAN["fired"] = True                # raises while the new value is computed for a notification
+            raise PLAN["exc"]("injected")
+        return 3 * self.x
+
     def _y_default(self):
         tick_call()
         return 43
@@ -191,9 +201,20 @@ def make():
     def obs_l(ev):
         handler_body(a, 4, len(ev.removed), len(ev.added))
 
+    def flt(name, trait):
+        tick_call()                       # a user callback the library calls while it walks the object
+        return name.startswith("zz")
+
+    def obs_z(ev):
+        handler_body(a, 6, int(ev.name[2:]), ev.new)
+
     a.on_trait_change(dyn, "x")
     a.observe(obs_x, "x")
     a.observe(obs_l, "l:items")
+    a.on_trait_change(lambda: None, "dp")     # a listener, so that a change of x recomputes dp for the notification
+    a.__dict__["_vf"] = (obs_z, match(flt))   # the filtered observer of the opaque operations
+    a.__dict__["_vz"] = 0
+    a.observe(obs_z, match(flt))
     del a._log[:]
     return a
 
@@ -211,10 +232,22 @@ def reg(a):
     """Digest of the sizes of every notifier list of the object (handler registrations)."""
     sizes = [len(a._trait("x", 2)._notifiers(False) or []), len(a._notifiers(False) or []), len(a.l.notifiers),
              len(a.d.notifiers), len(a.s.notifiers), len(a._trait("l", 2)._notifiers(False) or []),
-             len(a._trait("l_items", 2)._notifiers(False) or []), len(a._trait("c", 2)._notifiers(False) or [])]
+             len(a._trait("l_items", 2)._notifiers(False) or []), len(a._trait("c", 2)._notifiers(False) or []),
+             len(a._trait("trait_added", 2)._notifiers(False) or [])]
+    for i in range(a.__dict__["_vz"]):
+        sizes.append(len(a._trait("zz%d" % i, 2)._notifiers(False) or []))
     h = 0
     for n in sizes:
-        h = h * 16 + min(n, 15)
+        h = (h * 16 + min(n, 15)) % (2 ** 55)
+    return h
+
+
+def aux(a):
+    """Digest of values read from attributes outside the model: the depends_on property and the zz traits."""
+    vals = [num(a.dp)] + [num(a.__dict__.get("zz%d" % i, 0)) for i in range(a.__dict__["_vz"])]
+    h = 0
+    for v in vals:
+        h = (h * 1000003 + v + 7) % (2 ** 55)
     return h
 
 
@@ -274,6 +307,22 @@ def execute(a, op, echo):
         a.y
     elif k == "SetAd2":
         a.ad2 = (S if op[1] is None else SRC[op[1]])(v=op[2])
+    elif k == "SetXQ":
+        a.trait_setq(x=val(op[1]))
+    elif k == "ObsRemove":
+        h, g = a.__dict__["_vf"]
+        a.observe(h, g, remove=True)
+    elif k == "ObsAdd":
+        h, g = a.__dict__["_vf"]
+        a.observe(h, g)
+    elif k == "AddZ":
+        n = a.__dict__["_vz"]
+        a.add_trait("zz%d" % n, Int())
+        a.__dict__["_vz"] = n + 1
+    elif k == "SetZ":
+        n = a.__dict__["_vz"]
+        if n:
+            setattr(a, "zz%d" % ((op[1] or 0) % n), op[2])
     else:
         raise ValueError(k)
 
@@ -290,7 +339,7 @@ def run_one(obj, op, plan):
     fired = PLAN["fired"]
     echo = list(CALLS)      # the order in which the validator actually saw the values (set iteration order)
     arm(None)
-    return {"out": out, "st": snap(obj), "log": sorted(obj._log), "reg": reg(obj)}, fired, echo
+    return {"out": out, "st": snap(obj), "log": sorted(obj._log), "reg": reg(obj), "aux": aux(obj)}, fired, echo
 
 
 def run_case(case):
@@ -299,7 +348,7 @@ def run_case(case):
     for op, plan in case["ops"]:
         oa, fired, echo = run_one(a, op, plan)
         if plan and plan[0] == "call" and fired:
-            ot = {"out": "Ok", "st": snap(tw), "log": [], "reg": reg(tw)}      # the twin never sees the failing operation
+            ot = {"out": "Ok", "st": snap(tw), "log": [], "reg": reg(tw), "aux": aux(tw)}   # the twin never sees it
         else:
             ot, _, _ = run_one(tw, op, None)
         res["steps"].append({"fired": fired, "A": oa, "T": ot, "echo": echo})
